@@ -12,6 +12,7 @@ ENGINE = {'name': 'layered',
          'inner bytes -> recording handler]; the client stream header+payload is delivered whole and split after every position 1..len(header)+4, '
          'all connections of a header form through one provisioned config; oracle: whenever the whole delivery reaches the inner route every '
          'fragmentation reaches it too and its handler reads exactly the inner stream (keys C06:layered:rejected-in-fragments, C06:layered:*); '
+         'plus 3 TLS-in-TLS connections: route [tls sni outer.test -> tls handler], then [tls sni inner.test -> recorder] and [tls sni outer.test -> recorder]; the inner stream starts with a ClientHello for inner.test, which must take the inner.test route and be read intact (keys C06:layered:inner-tls-hello-misjudged, C06:layered:inner-stream-corrupted); '
          'every split is a non-trivial case',
  'trusted_base': ['net.Pipe transport and caddy.Load as in the C01 e2e engine; harness modules verif_prefix / verif_rec'],
  'modelled': ['end-to-end oracle only: RouteList.Compile verdict caching across a stream replacement, MatcherSets.AnyMatch, l4proxyprotocol handler, Connection.Wrap run as shipped'],
